@@ -9,4 +9,5 @@ int  conf_tree_get(const char *path, const unsigned char **data, size_t *len);
 uint64_t conf_trace_digest(int from);
 int conf_trace_count(void);
 void conf_set_index_checks(int on);
+void conf_fill_dir(const plan_t *p);
 #endif
